@@ -68,7 +68,13 @@ def run(rep):
         for h, r in failed:
             rep.violation("kani:sophia_api::" + h.name, kani_unit.describe_failure(r), witness=witness,
                           replay_text="./check C02 --replay <this file>   # replay_src/c02: pairs/triples of SimpleTerm/NsTerm/native terms on the real crate", confirmed=confirmed)
-    rep.not_covered += ["quoted triples (nesting) for cmp / hash (eq is proved for any nesting)", "conversions FromTerm / TryFromTerm / from_term_ref / into_term", "sophia_term (ArcTerm, RcTerm, GenericLiteral), rio Trusted<..>, jsonld, sparql ResultTerm, ArcStrStash",
+    # bounded native stand-in for what CBMC cannot execute (Arc/Rc/Box allocation graphs, String, std DefaultHasher):
+    # the laws on a pool of real SimpleTerms incl. nested quoted triples, and every provided conversion / copy path
+    native.bounded_stand_in(rep, ID, "c02", [], "c02_laws_and_conversions",
+                            "eq / cmp / hash laws on all pairs and triples of a pool of 18 SimpleTerms (all kinds, tags in several cases, quoted triples nested twice), NsTerm at every split point; every provided conversion or copy (ArcTerm / RcTerm from_term, as_simple, borrow_term, into_term, from_term_ref, try_into_term, Arc / Rc stashes copy_term, triple() / to_triple() / atoms() of the copies, graph names) yields a term of the same kind, equal both ways, cmp Equal, same hash",
+                            "18 + 3 terms, 375 cases", "FromTerm / Term::into_term / as_simple / from_term_ref for SimpleTerm, sophia_term::{ArcTerm, RcTerm, GenericLiteral} (term/src/_macro.rs, _generic.rs), ArcStrStash / RcStrStash::copy_term, graph_name_eq",
+                            "./check C02 --replay <this file>   # replay_src/c02")
+    rep.not_covered += ["quoted triples (nesting) for cmp / hash beyond the pool of the native stand-in (eq is proved for any nesting)", "conversions through rio Trusted<..>, jsonld, sparql ResultTerm (the sophia_api / sophia_term paths are in the bounded native stand-in only)",
                         "strings longer than one byte, non-ASCII content"]
     rep.notes.append("Term::eq is proved (Verus) to be the stated equivalence for all terms; cmp, hash, LanguageTag and NsTerm are bounded Kani harnesses")
 
